@@ -301,7 +301,63 @@ def extra_obligations(mods, tier, seed):
         out.append({"name": f"C16/arms/{name}/literal-behaves-like-variable", "status": "discharged" if okv else "sat", "backend": "enum+fwsim",
                     "where": f"{name}: literal and variable argument give the same tone/delay trace [{verdict}]", "time": 0.2,
                     "replay": {"literal_script": a[-160:], "detail": detail}, "replay_confirmed": not okv})
+    # the way an argument is WRITTEN does not matter: the same value written as a name, in parentheses, through abs()/int()/max() or as
+    # arithmetic gives the same tone / delay trace (a call the statement recogniser does not match must not vanish)
+    jobs = []
+    CALLS = {"play_tone(f)": "bz.play_tone({f})", "play_tone(f,n)": "bz.play_tone({f}, {n})", "beep": "bz.beep(frequency={f}, on_ms={n}, off_ms={n}, times={k})",
+             "sweep": "bz.sweep({f}, {g}, duration_ms={n}, steps={k})", "melody": "bz.melody('success', tempo={t})"}
+    WRAP = {"parenthesised": "({})", "abs": "abs({})", "int": "int({})", "max": "max({}, 1)", "arithmetic": "({} + 1) - 1", "getter": None}
+    HEADS = "from Reduino.Actuators import Buzzer\nfrom Reduino.Utils import sleep\nbz = Buzzer(8)\nf = 440\ng = 880\nn = 30\nk = 2\nt = 200\n"
+    for cname, tmpl in CALLS.items():
+        for wname, w in WRAP.items():
+            for place in ("setup", "main-loop", "helper"):
+                def script(wrapf):
+                    call = tmpl.format(f=wrapf("f"), g=wrapf("g"), n=wrapf("n"), k=wrapf("k"), t=wrapf("t"))
+                    if place == "setup":
+                        return HEADS + call + "\n"
+                    if place == "main-loop":
+                        return HEADS + "while True:\n    " + call + "\n    sleep(5)\n"
+                    return HEADS.replace("bz = Buzzer(8)\n", "bz = Buzzer(8)\ndef go():\n    " + call + "\n") + "go()\n"
+                if w is None:
+                    if cname != "play_tone(f)":
+                        continue
+                    plain = HEADS + "bz.play_tone(f)\nbz.stop()\nbz.play_tone(f)\n"
+                    shaped = HEADS + "bz.play_tone(f)\nbz.stop()\nbz.play_tone(bz.get_last_frequency())\n"
+                    if place != "setup":
+                        continue
+                else:
+                    plain, shaped = script(lambda v: v), script(lambda v, w=w: w.format(v))
+                jobs.append((f"{cname}/{wname}/{place}", plain, shaped))
+    with mp.Pool(8) as pool:
+        res = pool.map(_shape_one, jobs, chunksize=1)
+    bad = [r for r in res if r[1] not in ("same", "rejected")]
+    out.append({"name": "C16/arms/argument-written-differently-same-trace", "status": "discharged" if not bad else "sat", "backend": "enum+fwsim", "bounded": True,
+                "where": f"{len(jobs)} buzzer calls (5 call shapes x parenthesised / abs / int / max / arithmetic / getter arguments x setup, main loop, helper): the tone/delay trace equals that of the plainly written call",
+                "time": 0.3, "replay": {"failing": [{"case": r[0], "verdict": r[1], "detail": r[2], "script": r[3][-200:]} for r in bad[:4]]}, "replay_confirmed": bool(bad)})
     return out
+
+
+def _shape_one(job):
+    name, plain, shaped = job
+    from progs.diff import transpile
+    from fwsim.run import run_sketch
+    ev = []
+    for src in (plain, shaped):
+        cpp, err = transpile(src)
+        if cpp is None:
+            if src is shaped:
+                return name, "rejected", err, shaped
+            return name, "plain-rejected", err, plain
+        r = run_sketch(cpp, passes=2)
+        if not r.get("compiled"):
+            return name, "does-not-compile", r.get("errors", "")[-300:], src
+        ev.append([e for e in r["events"] if e[:2] in ("T:", "N:", "D:")])
+    if ev[0] != ev[1]:
+        k = next((i for i, (a, b) in enumerate(zip(ev[0], ev[1])) if a != b), min(len(ev[0]), len(ev[1])))
+        return name, "differs", {"at": k, "plain": ev[0][k:k + 4], "shaped": ev[1][k:k + 4], "lengths": [len(ev[0]), len(ev[1])]}, shaped
+    if not ev[0]:
+        return name, "no-events", "the plainly written call produced no tone/delay event", plain
+    return name, "same", None, shaped
 
 
 def extra_evidence():
